@@ -605,7 +605,7 @@ PROPS = {
     ),
     "C06": dict(
         theorems=["Bardic.Codec." + t for t in ["codec_roundtrip", "roundtrip_list", "roundtrip_kvs", "dec_typed",
-                                                "lookup_encKVs_none", "encPublic_eq_encKVs"]],
+                                                "lookup_encKVs_none", "encPublic_eq_encKVs", "dec_wrapped"]],
         run=run_c06,
         rule="random value trees (depth ≤ 6 quick / 12 thorough) over None, bool, int, str, list, tuple, string-keyed dict, "
              "plain attribute objects (Card, Deck holding lists/dicts of values), custom-serialised objects (Purse, whose "
